@@ -370,7 +370,8 @@ def main():
                     json.dump(doc, open(path, 'w'), indent=1)
                     if name in lock:
                         violations.append((name, path, ' no-failing-input-found'))
-                    elif rp.get('outcome') == 'held' and not e['abstracted'] and w.get('replay', {}).get('from') == 'entry' and 'head' not in w:
+                    elif rp.get('outcome') == 'held' and not e['abstracted'] and w.get('replay', {}).get('from') == 'entry' and 'head' not in w and e.get('kind') not in ('inv-entry', 'inv-preserved', 'variant'):
+                        # (loop invariants / variants are not evaluated by the native run: "held" says nothing about them)
                         errors.append(f'{name}: counter-model does not replay although no abstraction was used (engine model of a primitive?)')
                     else:
                         undecided.append(f'{name}: refuted by solver, replay {rp.get("outcome")} (not in obligations.lock)')
